@@ -444,9 +444,13 @@ func (e *Env) Exec(line string) []Step {
 		out = append(out, e.Exec("endblock")...)
 		return out
 	case "allocate":
-		v, d, amt := atoi(f[1]), atoi(f[2]), parseInt(f[3])
+		// allocate <val> (<denom> <amt>)+
+		v := atoi(f[1])
 		return env(func() {
-			coins := sdk.NewCoins(sdk.NewCoin(Denoms[d], amt))
+			coins := sdk.NewCoins()
+			for i := 2; i+1 < len(f); i += 2 {
+				coins = coins.Add(sdk.NewCoin(Denoms[atoi(f[i])], parseInt(f[i+1])))
+			}
 			e.mintToModule(distrtypes.ModuleName, coins)
 			val, err := e.App.StakingKeeper.GetValidator(e.Ctx, e.Vals[v])
 			if err != nil {
